@@ -10,7 +10,7 @@ From Coq Require Import List NArith ZArith Bool Lia.
 From ApiFu Require Import Base.Sexp.
 From ApiFu Require Vld.Ast Vld.AstInd Vld.Inspect Vld.InspectProofs Vld.TypeInfoModel Vld.TypeInfoPure Vld.ValidatorModel
      Vld.ProofsCommon Vld.ProofsArguments Vld.ProofsValues Vld.ProofsVarsOrder Vld.ProofsOrder Vld.ProofsTypeInfoValues
-     Vld.ProofsCycles Vld.ValidatorProofs.
+     Vld.ProofsCycles Vld.ValidatorProofs Vld.Hyps Vld.ValidSpec Vld.ProofsSubscription Vld.MemoEquiv Vld.ProofsVerdict.
 From ApiFu Require Import Val.Values Val.MapFacts Val.CoerceModel Val.CoerceSpec Val.CoerceProofs
      Val.BridgeC04 Val.BridgeC04Proofs Val.BridgeC04Doc.
 From ApiFu Require Val.BridgeC04Full.
@@ -511,4 +511,59 @@ Proof.
   - split; [exact Hclosed|exact Hraw].
   - intros f Hfr. destruct (Hf f Hfr) as (Hu & T & n & Hd). rewrite Hd. destruct (Hdefs T n) as (H1 & H2).
     split; [exact H1|]. split; [exact H2|exact Hu].
+Qed.
+
+(** ** the full statement: behind the validator, cost functions only ever see conforming,
+    reference-coerced arguments *)
+Theorem accepted_document_cost_calls pi VS F ES D opname raw o skip_zero fuel dc ctx0 max :
+  ProofsCommon.order_ok pi ->
+  inputs_agree VS F ES ->
+  VM.validate_model VM.repaired pi VS F D = A.Done [] ->
+  let Adoc := TP.pti_doc qo VS F D in
+  let E := ExeA.ArgData.s_inputs ES in
+  let dt := ExeA.ArgArgs.dt_oracle ES in
+  env_ok E = true ->
+  (forall p, In p raw -> jval_ok (snd p) = true) ->
+  chosen_op unit (CC.c_ops ES Adoc) opname = Some o ->
+  (forall def dflt, In def (ao_vardefs o) -> vd_default def = Some dflt -> lit_vars dflt = []) ->
+  forall c, In c (snd (validate_cost_trace unit E dt skip_zero fuel dc ctx0
+                         (CC.c_ops ES Adoc) (CC.c_frs ES Adoc) opname raw max)) ->
+    args_conform_b E (af_argdefs (c_field c)) (c_args c) = true /\
+    exists vv,
+      ref_variable_values E dt (ao_vardefs o) raw = Some vv /\
+      ref_argument_values E dt (af_argdefs (c_field c))
+        (map (fun p => match p with (k, l) => (k, abs_lit vv l) end) (af_args (c_field c))) = Some (c_args c).
+Proof.
+  intros Hpi Hia Hacc Adoc E dt HE Hraw Ho Hclosed c Hin. split.
+  - exact (accepted_document_calls_conform pi VS F ES D opname raw o skip_zero fuel dc ctx0 max Hpi Hia Hacc HE Hraw Ho Hclosed c Hin).
+  - exact (accepted_document_calls_reference_coerced pi VS F ES D opname raw o skip_zero fuel dc ctx0 max Hpi (ia_leaves VS F ES Hia) Hacc HE Hraw Ho c Hin).
+Qed.
+
+(** the same for every document VALID in the sense of the GraphQL specification, chapter 5 (C04's
+    [Valid], which the validator accepts: C04_validate_verdict) *)
+Theorem valid_document_cost_calls pi VS F ES D opname raw o skip_zero fuel dc ctx0 max :
+  ProofsCommon.order_ok pi ->
+  Hyps.schema_ok VS = true -> Hyps.schema_args_ok VS = true -> Hyps.schema_impls_ok VS = true ->
+  Hyps.schema_defaults_ok VS = true -> Hyps.schema_types_wf VS = true ->
+  ProofsSubscription.doc_set_positions_distinct D -> MemoEquiv.doc_field_positions_distinct D ->
+  ValidSpec.Valid VS F D ->
+  inputs_agree VS F ES ->
+  let Adoc := TP.pti_doc qo VS F D in
+  let E := ExeA.ArgData.s_inputs ES in
+  let dt := ExeA.ArgArgs.dt_oracle ES in
+  env_ok E = true ->
+  (forall p, In p raw -> jval_ok (snd p) = true) ->
+  chosen_op unit (CC.c_ops ES Adoc) opname = Some o ->
+  (forall def dflt, In def (ao_vardefs o) -> vd_default def = Some dflt -> lit_vars dflt = []) ->
+  forall c, In c (snd (validate_cost_trace unit E dt skip_zero fuel dc ctx0
+                         (CC.c_ops ES Adoc) (CC.c_frs ES Adoc) opname raw max)) ->
+    args_conform_b E (af_argdefs (c_field c)) (c_args c) = true /\
+    exists vv,
+      ref_variable_values E dt (ao_vardefs o) raw = Some vv /\
+      ref_argument_values E dt (af_argdefs (c_field c))
+        (map (fun p => match p with (k, l) => (k, abs_lit vv l) end) (af_args (c_field c))) = Some (c_args c).
+Proof.
+  intros Hpi H1 H2 H3 H4 H5 H6 H7 Hvalid Hia.
+  apply (accepted_document_cost_calls pi VS F ES D opname raw o skip_zero fuel dc ctx0 max Hpi Hia).
+  apply (proj2 (ProofsVerdict.validate_verdict_plain pi VS F D Hpi H1 H2 H3 H4 H5 H6 H7) Hvalid).
 Qed.
